@@ -112,7 +112,10 @@ def design_tests(x, y, n_test, sig_level, min_corr, bb_bound=3.0, dw_range=(1.5,
     est, cihw, sg, _ = design_fit(xp, yp, float(x[n_pre:].mean()), float(y[n_pre:].mean()), n_test, sig_level)
     lo, hi = min(est - cihw, est + cihw), max(est - cihw, est + cihw)
     scale = max(abs(lo), abs(hi), 1e-300)
-    if min(abs(lo), abs(hi)) < 1e-9 * scale or sg <= 0:
+    syy_p = float(((yp - yp.mean()) ** 2).sum())
+    # an exact fit of the n_pre points (residual s.d. at rounding level: the library's is exactly 0, this one's ~1e-14)
+    # is as degenerate as an exact fit of the whole window above: interval and probability are rounding noise
+    if min(abs(lo), abs(hi)) < 1e-9 * scale or sg <= 0 or sg * sg * (n_pre - 2) <= 1e-20 * max(syy_p, 1e-300):
       edge = True
       aa_ok = None
     elif lo < 0.0 < hi:
